@@ -56,6 +56,11 @@ def run(tier, seed):
                          "CParser._pop_scope", "CParser._lex_type_lookup_func", "CParser._lex_on_lbrace_func",
                          "CParser._lex_on_rbrace_func"] + LX.C04_FUNCTIONS, "C04/smt", tier)
     res.add(G.gx(None, ["scope"], "C04/gx", tier))
+    # the re-interpretation of a trailing typedef name as the declared identifier, and the places that ask "does a type
+    # name start here?" (declaration vs expression statement, cast / sizeof / compound literal vs parenthesised expression)
+    res.add(G.gx(G.decl_methods() + ["_parse_block_item", "_parse_cast_expression", "_parse_unary_expression", "_parse_postfix_expression",
+                                     "_parse_primary_expression", "_parse_iteration_statement"],
+                 ["accept", "term"], "C04/gx", tier, drop=lambda o: "block-item: static_assert-declaration" in o.name))
     res.add(timing_obligation())
     res.assumptions.append("scope push/pop follows the brace tokens as they are LEXED (buffered look-ahead of at most one token beyond "
                            "the braces); the abstract stream of GX has no lexer, so the scope a name lands in is covered by the SMT "
